@@ -63,6 +63,12 @@ def kinds_for(schema, fdef, natural=None):
         for label, bad in bads:
             out.append((label + "-last", "value", base + [bad]))
             out.append((label + "-first", "value", [bad] + base))
+        # a longer list: the failing item at index 4 and at index 5 of six (the error path must carry *that* index)
+        if base:
+            six = (base * 6)[:6]
+            for label, bad in bads[:2]:
+                for k in (4, 5):
+                    out.append(("%s-at-%d-of-6" % (label, k), "value", six[:k] + [bad] + six[k + 1:]))
     else:
         td = schema.type(core[1])
         if td.kind in ("SCALAR", "ENUM"):
